@@ -36,7 +36,7 @@ From Coq Require Import String.
 From Coq Require Import List ZArith Bool Permutation Lia.
 From SV Require Import Base.Base Fmt.VBits Fmt.VExpr Fmt.VDoc Fmt.VTop Fmt.VElab Fmt.VSpec Fmt.VSem
   Proofs.VerilogLists Proofs.VerilogSlice Proofs.VerilogGrow Proofs.VerilogPort Proofs.VerilogAssign Proofs.VerilogTop
-  Proofs.VElabBase Proofs.VElabInv Proofs.VElabWf Proofs.VElabExpr Proofs.VElabConn Proofs.VElabAssign Proofs.VElabPorts Proofs.VElabNets Proofs.VElabTop Proofs.VElabStable Proofs.VElabVis Proofs.VElabFrame Proofs.VElabDoc Proofs.VElabRun.
+  Proofs.VElabBase Proofs.VElabInv Proofs.VElabWf Proofs.VElabExpr Proofs.VElabConn Proofs.VElabAssign Proofs.VElabPorts Proofs.VElabNets Proofs.VElabTop Proofs.VElabStable Proofs.VElabVis Proofs.VElabFrame Proofs.VElabFrameX Proofs.VElabDoc Proofs.VElabRun Proofs.VElabRunX.
 Import ListNotations.
 Local Close Scope string_scope.
 Open Scope Z_scope.
@@ -577,6 +577,68 @@ Proof.
   split.
   - apply (T (S "q", Some (DCat [DId (S "b"); DBit (S "w") 2]))); [right; left; reflexivity|]. vm_compute. left. reflexivity.
   - apply (T (S "p", Some (DAtom (DPart (S "a") 1 0)))); [left; reflexivity|]. vm_compute. left. reflexivity.
+Qed.
+
+(* ... and in ANY module m of a document, when the modules after m neither re-declare m nor declare the instantiated
+   module (it is declared earlier in the file or never - no forward reference): while a later module is read its own
+   definition is re-based freely, every other definition keeps its labels, instances and references
+   (Proofs/VElabFrameX.v module_decl_LSX), so the connection keeps its meaning down to the value elab returns. *)
+Theorem C06_full_module_instance : forall pre m post before m' i params attrs l after n,
+  elab (pre ++ m :: post) = Ok n -> vm_cell m = false ->
+  vm_body m = before ++ IInst m' i params attrs (CNamed l) :: after -> Forall not_port_decl after ->
+  Forall (fun m2 => vm_name m2 <> vm_name m /\ vm_name m2 <> m') post ->
+  exists s0 s5 cur s,
+    fold_res module_decl pre st_init = Ok s0 /\ module_open m s0 = Ok (s5, cur) /\ fold_res (body_item cur) before s5 = Ok s /\
+    Inv s /\ VInv s /\ ed_name (get_def cur s) = vm_name m /\
+    (vm_name m <> m' ->
+     Forall (conn_typed (crange (get_def cur s))) l -> Forall (fun pc => has_glob (fst pc) = false) l ->
+     (forall k, find_def m' s = Some k -> all_lo0 (get_def k s)) ->
+     forall pc e r, In pc l -> In (e, r) (conn_meaning i (crange (get_def cur s)) pc) ->
+     exists d, nth_error (nv_defs n) cur = Some d /\ In e (net_of r d)).
+Proof. exact module_instance_value. Qed.
+Print Assumptions C06_full_module_instance.
+
+(* sub declared first, then top (ex_doc in the other order), then a module with a re-basing declaration "input [7:4] z" *)
+Definition ex_doc4 : vdoc :=
+  match ex_doc with
+  | top :: sub :: _ =>
+      [sub; top; {| vm_name := S "aux"; vm_cell := false; vm_params := []; vm_attrs := [];
+                    vm_header := [HPort None None (S "z")]; vm_body := [IPortDecl DIn None (Some (7, 4)) [S "z"] []] |}]
+  | _ => []
+  end.
+
+Example C06_full_module_instance_witness :
+  match elab ex_doc4 with
+  | Ok n => exists d, nth_error (nv_defs n) 1 = Some d /\ In (EInst (S "u1") (LName (S "q")) 1) (net_of (S "b", 0) d)
+  | Err _ => False
+  end.
+Proof.
+  destruct (elab ex_doc4) as [n|er] eqn:E; [|vm_compute in E; discriminate].
+  destruct (C06_full_module_instance (firstn 1 ex_doc4) (nth 1 ex_doc4 {| vm_name := []; vm_cell := true; vm_params := []; vm_attrs := []; vm_header := []; vm_body := [] |})
+              (skipn 2 ex_doc4)
+              (firstn 4 (vm_body (nth 1 ex_doc4 {| vm_name := []; vm_cell := true; vm_params := []; vm_attrs := []; vm_header := []; vm_body := [] |})))
+              (S "sub") (S "u1") [] []
+              [(S "p", Some (DAtom (DPart (S "a") 1 0))); (S "q", Some (DCat [DId (S "b"); DBit (S "w") 2])); (S "r", None)]
+              (skipn 5 (vm_body (nth 1 ex_doc4 {| vm_name := []; vm_cell := true; vm_params := []; vm_attrs := []; vm_header := []; vm_body := [] |})))
+              n E eq_refl eq_refl) as (s0 & s5 & cur & s & E0 & E5 & Es & _ & _ & _ & K).
+  { repeat constructor. }
+  { constructor; [|constructor]. split; vm_compute; discriminate. }
+  vm_compute in E0. inversion E0; subst s0. clear E0.
+  vm_compute in E5. inversion E5; subst s5 cur. clear E5.
+  vm_compute in Es. inversion Es; subst s. clear Es.
+  match type of K with ?A -> _ => assert (H1 : A) by (vm_compute; discriminate) end. specialize (K H1).
+  match type of K with ?A -> _ => assert (H2 : A) end.
+  { constructor; [cbn; split; [reflexivity|]; cbn; exists 0, 4%nat; split; [vm_compute; reflexivity|lia]|].
+    constructor; [cbn; split; [discriminate|]; constructor; [split; [reflexivity|exact Logic.I]|];
+                  constructor; [split; [reflexivity|]; cbn; exists 0, 4%nat; split; [vm_compute; reflexivity|lia]|constructor]|].
+    constructor; [exact Logic.I|constructor]. }
+  specialize (K H2).
+  match type of K with ?A -> _ => assert (H3 : A) by (repeat constructor) end. specialize (K H3).
+  match type of K with ?A -> _ => assert (H4 : A) end.
+  { intros k Hk. vm_compute in Hk. inversion Hk; subst k. intros p Hp. vm_compute in Hp.
+    repeat (destruct Hp as [<-|Hp]; [reflexivity|]). destruct Hp. }
+  specialize (K H4).
+  apply (K (S "q", Some (DCat [DId (S "b"); DBit (S "w") 2]))); [right; left; reflexivity|]. vm_compute. left. reflexivity.
 Qed.
 
 (* ANSI headers: a direction, and the range given with it or after it, stays in force for the names that follow
